@@ -52,7 +52,7 @@ DS_NAME = "VerifC08Synthetic"
 NOISE_VARS = [1e-4, 1e-3, 0.01, 0.05, 0.1, 0.25, 0.5, 0.9, 1.0, 1.5, 4.0, 10.0]
 EPSS = [0.01, 0.05, 0.1, 0.25, 0.5, 1.0]
 DELTAS = [0.01, 0.05, 0.1, 0.2, 0.5]
-THETAS = [20, 45, 60, 89, 90, 91, 120, 135, 160]
+THETAS = [1, 2, 4, 8, 20, 45, 60, 89, 90, 91, 120, 135, 160]  # narrow cones (large beta) are where a lost factor beta shows
 KS = [2, 3, 5, 10, 32]
 
 
